@@ -161,7 +161,7 @@ func getFloatToStringFunction() schema.CallableFunction {
 	funcSchema, err := schema.NewCallableFunction(
 		"floatToString",
 		[]schema.Type{schema.NewFloatSchema(nil, nil, nil)},
-		schema.NewStringSchema(nil, nil, regexp.MustCompile(`^\d+\.\d*$`)),
+		schema.NewStringSchema(nil, nil, regexp.MustCompile(`^(?:NaN|[-+]Inf|-?\d+(?:\.\d*)?)$`)),
 		false,
 		schema.NewDisplayValue(
 			schema.PointerTo("floatToString"),
